@@ -6,8 +6,17 @@ Import ListNotations.
 Open Scope Z_scope.
 From YV Require Import model.AtomicCSem model.AtomicStd gen.Gen_fiber_atomic model.AtomicObs proofs.AtomicProofs.
 
-Lemma fiber_int_agrees_strict : agrees0 any_sem KInt fiber_int.
+(* fetch_add / fetch_sub / += / -= never overflow a plain signed T *)
+Lemma fiber_int_add_sub_defined : agrees_for g_addsub (impl_q no_guard) any_sem KInt fiber_int.
 Proof. agree_int. Qed.
+(* ++ / -- never overflow a plain signed T *)
+Lemma fiber_int_inc_dec_defined : agrees_for g_incdec (impl_q no_guard) any_sem KInt fiber_int.
+Proof. agree_int. Qed.
+
+Lemma fiber_int_agrees_strict : agrees0 any_sem KInt fiber_int.
+Proof.
+  apply agrees_groups; [agree_int | exact fiber_int_add_sub_defined | exact fiber_int_inc_dec_defined | agree_int | no_flag_ops].
+Qed.
 
 Lemma fiber_agrees0_strict k : agrees0 any_sem k (fiber_of k).
 Proof.
